@@ -6,60 +6,62 @@ proofs only follow the control flow (`check_cost` calls and the order of the arg
 -/
 import ClvmProofs.Lemmas.Interp.CryptoShapesAux
 
-namespace Clvm.Interp
-open Clvm Clvm.Crypto Clvm.Crypto.Ops
+set_option linter.unusedSimpArgs false
+
+namespace Clvm.Crypto.Ops
+open Clvm Clvm.Crypto Clvm.Interp
 
 /-! ### `get_args` -/
 
-theorem matchArgs1_some {args : Tree} {l : List Tree} (h : Ops.matchArgs 1 args = some l) :
+theorem matchArgs1_some {args : Tree} {l : List Tree} (h : matchArgs 1 args = some l) :
     ∃ a t, args = .pair a (.atom t) ∧ l = [a] := by
   match args, h with
-  | .pair a (.atom t), h => simp [Ops.matchArgs] at h; exact ⟨a, t, rfl, h.symm⟩
-  | .pair a (.pair _ _), h => simp [Ops.matchArgs] at h
-  | .atom _, h => simp [Ops.matchArgs] at h
+  | .pair a (.atom t), h => simp [matchArgs] at h; exact ⟨a, t, rfl, h.symm⟩
+  | .pair a (.pair _ _), h => simp [matchArgs] at h
+  | .atom _, h => simp [matchArgs] at h
 
-theorem matchArgs2_some {args : Tree} {l : List Tree} (h : Ops.matchArgs 2 args = some l) :
+theorem matchArgs2_some {args : Tree} {l : List Tree} (h : matchArgs 2 args = some l) :
     ∃ a b t, args = .pair a (.pair b (.atom t)) ∧ l = [a, b] := by
   match args, h with
-  | .pair a (.pair b (.atom t)), h => simp [Ops.matchArgs] at h; exact ⟨a, b, t, rfl, h.symm⟩
-  | .pair a (.pair b (.pair _ _)), h => simp [Ops.matchArgs] at h
-  | .pair a (.atom _), h => simp [Ops.matchArgs] at h
-  | .atom _, h => simp [Ops.matchArgs] at h
+  | .pair a (.pair b (.atom t)), h => simp [matchArgs] at h; exact ⟨a, b, t, rfl, h.symm⟩
+  | .pair a (.pair b (.pair _ _)), h => simp [matchArgs] at h
+  | .pair a (.atom _), h => simp [matchArgs] at h
+  | .atom _, h => simp [matchArgs] at h
 
-theorem matchArgs3_some {args : Tree} {l : List Tree} (h : Ops.matchArgs 3 args = some l) :
+theorem matchArgs3_some {args : Tree} {l : List Tree} (h : matchArgs 3 args = some l) :
     ∃ a b c t, args = .pair a (.pair b (.pair c (.atom t))) ∧ l = [a, b, c] := by
   match args, h with
-  | .pair a (.pair b (.pair c (.atom t))), h => simp [Ops.matchArgs] at h; exact ⟨a, b, c, t, rfl, h.symm⟩
-  | .pair a (.pair b (.pair c (.pair _ _))), h => simp [Ops.matchArgs] at h
-  | .pair a (.pair b (.atom _)), h => simp [Ops.matchArgs] at h
-  | .pair a (.atom _), h => simp [Ops.matchArgs] at h
-  | .atom _, h => simp [Ops.matchArgs] at h
+  | .pair a (.pair b (.pair c (.atom t))), h => simp [matchArgs] at h; exact ⟨a, b, c, t, rfl, h.symm⟩
+  | .pair a (.pair b (.pair c (.pair _ _))), h => simp [matchArgs] at h
+  | .pair a (.pair b (.atom _)), h => simp [matchArgs] at h
+  | .pair a (.atom _), h => simp [matchArgs] at h
+  | .atom _, h => simp [matchArgs] at h
 
 theorem getArgs1_cases (args : Tree) (name : String) :
-    (∃ a t, args = .pair a (.atom t) ∧ Ops.getArgs 1 args name = .ok [a]) ∨
-    (∃ s, Ops.getArgs 1 args name = .error (.InvalidOpArg s)) := by
-  unfold Ops.getArgs
-  cases hm : Ops.matchArgs 1 args with
+    (∃ a t, args = .pair a (.atom t) ∧ getArgs 1 args name = .ok [a]) ∨
+    (∃ s, getArgs 1 args name = .error (.InvalidOpArg s)) := by
+  unfold getArgs
+  cases hm : matchArgs 1 args with
   | none => exact Or.inr ⟨_, rfl⟩
   | some l =>
     obtain ⟨a, t, rfl, rfl⟩ := matchArgs1_some hm
     exact Or.inl ⟨a, t, rfl, rfl⟩
 
 theorem getArgs2_cases (args : Tree) (name : String) :
-    (∃ a b t, args = .pair a (.pair b (.atom t)) ∧ Ops.getArgs 2 args name = .ok [a, b]) ∨
-    (∃ s, Ops.getArgs 2 args name = .error (.InvalidOpArg s)) := by
-  unfold Ops.getArgs
-  cases hm : Ops.matchArgs 2 args with
+    (∃ a b t, args = .pair a (.pair b (.atom t)) ∧ getArgs 2 args name = .ok [a, b]) ∨
+    (∃ s, getArgs 2 args name = .error (.InvalidOpArg s)) := by
+  unfold getArgs
+  cases hm : matchArgs 2 args with
   | none => exact Or.inr ⟨_, rfl⟩
   | some l =>
     obtain ⟨a, b, t, rfl, rfl⟩ := matchArgs2_some hm
     exact Or.inl ⟨a, b, t, rfl, rfl⟩
 
 theorem getArgs3_cases (args : Tree) (name : String) :
-    (∃ a b c t, args = .pair a (.pair b (.pair c (.atom t))) ∧ Ops.getArgs 3 args name = .ok [a, b, c]) ∨
-    (∃ s, Ops.getArgs 3 args name = .error (.InvalidOpArg s)) := by
-  unfold Ops.getArgs
-  cases hm : Ops.matchArgs 3 args with
+    (∃ a b c t, args = .pair a (.pair b (.pair c (.atom t))) ∧ getArgs 3 args name = .ok [a, b, c]) ∨
+    (∃ s, getArgs 3 args name = .error (.InvalidOpArg s)) := by
+  unfold getArgs
+  cases hm : matchArgs 3 args with
   | none => exact Or.inr ⟨_, rfl⟩
   | some l =>
     obtain ⟨a, b, c, t, rfl, rfl⟩ := matchArgs3_some hm
@@ -67,10 +69,10 @@ theorem getArgs3_cases (args : Tree) (name : String) :
 
 /-- `get_varargs::<2>`: zero, one or two items, or an `InvalidOpArg` -/
 theorem getVarargs2_cases (args : Tree) (name : String) :
-    (∃ t, args = .atom t ∧ Ops.getVarargs 2 args name = .ok []) ∨
-    (∃ a t, args = .pair a (.atom t) ∧ Ops.getVarargs 2 args name = .ok [a]) ∨
-    (∃ a b t, args = .pair a (.pair b (.atom t)) ∧ Ops.getVarargs 2 args name = .ok [a, b]) ∨
-    (∃ s, Ops.getVarargs 2 args name = .error (.InvalidOpArg s)) := by
+    (∃ t, args = .atom t ∧ getVarargs 2 args name = .ok []) ∨
+    (∃ a t, args = .pair a (.atom t) ∧ getVarargs 2 args name = .ok [a]) ∨
+    (∃ a b t, args = .pair a (.pair b (.atom t)) ∧ getVarargs 2 args name = .ok [a, b]) ∨
+    (∃ s, getVarargs 2 args name = .error (.InvalidOpArg s)) := by
   match args with
   | .atom t => exact Or.inl ⟨t, rfl, rfl⟩
   | .pair a (.atom t) => exact Or.inr (Or.inl ⟨a, t, rfl, rfl⟩)
@@ -85,11 +87,14 @@ syntax "walk_ok " ident : tactic
 macro_rules
   | `(tactic| walk_ok $h:ident) => `(tactic|
     repeat' (first
-      | (simp only [ex_bind_ok, ex_pure, ex_throw, ex_ok_bind, ex_err_bind] at $h:ident; done)
-      | (cases $h:ident; done)
-      | (obtain ⟨_, _, $h:ident⟩ := $h:ident)
+      | (simp only [ex_bind_ok, ex_pure, ex_throw, ex_ok_bind, ex_err_bind, Bool.false_eq_true, eq_self,
+          ↓reduceIte, reduceCtorEq, false_and, and_false, exists_false] at $h:ident; done)
+      | (refine Exists.elim $h ?_; clear $h; intro _ hx; have hl := And.left hx; have $h:ident := And.right hx;
+         clear hx)
+      | (simp only [Except.ok.injEq] at $h:ident; subst $h:ident)
       | (split at $h:ident)
-      | (simp only [ex_bind_ok, ex_pure, ex_throw, ex_ok_bind, ex_err_bind] at $h:ident)))
+      | (simp only [ex_bind_ok, ex_pure, ex_throw, ex_ok_bind, ex_err_bind, Bool.false_eq_true, eq_self,
+          ↓reduceIte] at $h:ident)))
 
 /-- after `walk_ok`: rewrite the budget-independent steps of the goal with what the walk found and
 discharge the remaining chain of `check_cost` calls -/
@@ -105,15 +110,15 @@ macro_rules
 
 /-! ### the loops -/
 
-theorem cSha256Loop_ok {pa pb m : Nat} : ∀ {t : Tree} {cost : Nat} {acc : Bytes} {r : Nat × Bytes},
-    Ops.sha256Loop pa pb m t cost acc = .ok r →
-      LoopOk r.1 cost (fun m' => Ops.sha256Loop pa pb m' t cost acc) r := by
+theorem sha256Loop_ok {pa pb m : Nat} : ∀ {t : Tree} {cost : Nat} {acc : Bytes} {r : Nat × Bytes},
+    sha256Loop pa pb m t cost acc = .ok r →
+      LoopOk r.1 cost (fun m' => sha256Loop pa pb m' t cost acc) r := by
   intro t
   induction t with
-  | atom b => intro cost acc r h; unfold Ops.sha256Loop at h ⊢; cases h; exact LoopOk.pure (Nat.le_refl _)
+  | atom b => intro cost acc r h; unfold sha256Loop at h ⊢; cases h; exact LoopOk.pure (Nat.le_refl _)
   | pair arg rest _ ih =>
     intro cost acc r h
-    unfold Ops.sha256Loop at h ⊢
+    unfold sha256Loop at h ⊢
     walk_ok h
     simp only [*, ex_ok_bind]
     exact (ih h).checkB (by omega)
@@ -152,11 +157,12 @@ theorem g1SubtractLoop_ok {m : Nat} : ∀ {t : Tree} {cost : Nat} {total : Bls.G
   | atom b => intro cost total f r h; unfold g1SubtractLoop at h ⊢; cases h; exact LoopOk.pure (Nat.le_refl _)
   | pair arg rest _ ih =>
     intro cost total f r h
-    unfold g1SubtractLoop at h ⊢
-    simp only [ex_bind_ok] at h
-    obtain ⟨P, hP, _, hc, h⟩ := h
-    simp only [hP, ex_ok_bind]
-    exact (ih h).checkB (by omega)
+    cases f <;>
+    · unfold g1SubtractLoop at h ⊢
+      simp only [Bool.false_eq_true, eq_self, ↓reduceIte] at h ⊢
+      walk_ok h
+      simp only [*, ex_ok_bind, Bool.false_eq_true, ↓reduceIte]
+      exact (ih h).checkB (by omega)
 
 theorem g2AddLoop_ok {m : Nat} : ∀ {t : Tree} {cost : Nat} {total : Bls.G2} {r : Nat × Bls.G2},
     g2AddLoop m t cost total = .ok r →
@@ -167,9 +173,8 @@ theorem g2AddLoop_ok {m : Nat} : ∀ {t : Tree} {cost : Nat} {total : Bls.G2} {r
   | pair arg rest _ ih =>
     intro cost total r h
     unfold g2AddLoop at h ⊢
-    simp only [ex_bind_ok] at h
-    obtain ⟨P, hP, _, hc, h⟩ := h
-    simp only [hP, ex_ok_bind]
+    walk_ok h
+    simp only [*, ex_ok_bind]
     exact (ih h).checkB (by omega)
 
 theorem g2SubtractLoop_ok {m : Nat} : ∀ {t : Tree} {cost : Nat} {total : Bls.G2} {isFirst : Bool} {r : Nat × Bls.G2},
@@ -180,11 +185,12 @@ theorem g2SubtractLoop_ok {m : Nat} : ∀ {t : Tree} {cost : Nat} {total : Bls.G
   | atom b => intro cost total f r h; unfold g2SubtractLoop at h ⊢; cases h; exact LoopOk.pure (Nat.le_refl _)
   | pair arg rest _ ih =>
     intro cost total f r h
-    unfold g2SubtractLoop at h ⊢
-    simp only [ex_bind_ok] at h
-    obtain ⟨P, hP, _, hc, h⟩ := h
-    simp only [hP, ex_ok_bind]
-    exact (ih h).checkB (by omega)
+    cases f <;>
+    · unfold g2SubtractLoop at h ⊢
+      simp only [Bool.false_eq_true, eq_self, ↓reduceIte] at h ⊢
+      walk_ok h
+      simp only [*, ex_ok_bind, Bool.false_eq_true, ↓reduceIte]
+      exact (ih h).checkB (by omega)
 
 theorem pairingLoop_ok {cpa m : Nat} : ∀ {fuel : Nat} {args : Tree} {cost : Nat} {items : List (Bls.G1 × Bls.G2)}
     {r : Nat × List (Bls.G1 × Bls.G2)},
@@ -222,4 +228,247 @@ theorem verifyLoop_ok {cpa cpb cpd m : Nat} : ∀ {fuel : Nat} {args : Tree} {co
       simp only [hn, Bool.false_eq_true, ↓reduceIte, h1, hpk, h2, h3, hmsg, h4, ex_ok_bind]
       exact (ih h).checkB (by omega)
 
-end Clvm.Interp
+/-! ### the operators -/
+
+theorem LoopOk.check1 {x b : Nat} (h : x ≤ b) : LoopOk b 0 (fun m' => checkCost x m') () :=
+  ⟨Nat.zero_le _, fun m' => by
+    by_cases hle : x ≤ m'
+    · exact ⟨Or.inl (cCheck_of_le hle), fun _ => cCheck_of_le hle⟩
+    · exact ⟨Or.inr (cCheck_of_lt (Nat.lt_of_not_le hle)), fun hh => absurd (Nat.le_trans h hh) hle⟩⟩
+
+theorem opSha256_budget : TBudget opSha256 := by
+  intro flags m args r h
+  unfold opSha256 at h ⊢
+  cases hnm : newCostModel flags <;>
+  · simp only [hnm, Bool.false_eq_true, ↓reduceIte] at h ⊢
+    split at h
+    · rename_i hnil
+      simp only [hnil, ↓reduceIte]
+      unfold newAtomAndCost at h ⊢
+      cases h; exact LoopOk.pure (Nat.zero_le _)
+    · rename_i hnil
+      simp only [hnil, ↓reduceIte]
+      split at h
+      · rename_i val hfast
+        split at h
+        · cases h
+        · rename_i hc
+          split at h
+          · rename_i hh
+            unfold newAtomAndCost at h
+            cases h
+            exact LoopOk.lift (LoopOk.check1 (Nat.le_refl _)) (Nat.le_add_right _ _)
+              (fun m' hm' => by simp only [hm', hh, newAtomAndCost]) (fun m' hm' => by simp only [hm'])
+          · cases h
+      · rename_i hfast
+        split at h
+        · cases h
+        · rename_i cost msg hl
+          unfold newAtomAndCost at h
+          cases h
+          exact (LoopOk.lift (sha256Loop_ok hl) (Nat.le_add_right _ _)
+            (fun m' hm' => by simp only [hm', newAtomAndCost]) (fun m' hm' => by simp only [hm'])).weaken (Nat.zero_le _)
+
+theorem opKeccak256_budget : TBudget opKeccak256 := by
+  intro flags m args r h
+  unfold opKeccak256 at h ⊢
+  cases hnm : newCostModel flags <;>
+  · simp only [hnm, Bool.false_eq_true, ↓reduceIte] at h ⊢
+    split at h
+    · cases h
+    · rename_i cost msg hl
+      unfold newAtomAndCost at h
+      cases h
+      exact (LoopOk.lift (keccakLoop_ok hl) (Nat.le_add_right _ _)
+        (fun m' hm' => by simp only [hm', newAtomAndCost]) (fun m' hm' => by simp only [hm'])).weaken (Nat.zero_le _)
+
+/-- an operator that does not consult the budget -/
+theorem TBudget.of_const {g : Crypto.OpFn} (hc : ∀ flags m m' args, g flags m args = g flags m' args) :
+    TBudget g := fun flags m args _ h =>
+  ⟨Nat.zero_le _, fun m' => ⟨Or.inl ((hc flags m' m args).trans h), fun _ => (hc flags m' m args).trans h⟩⟩
+
+theorem opCoinid_budget : TBudget opCoinid := TBudget.of_const fun _ _ _ _ => rfl
+theorem opBlsG1Negate_budget : TBudget opBlsG1Negate := TBudget.of_const fun _ _ _ _ => rfl
+theorem opBlsG2Negate_budget : TBudget opBlsG2Negate := TBudget.of_const fun _ _ _ _ => rfl
+
+theorem opPointAdd_budget : TBudget opPointAdd := by
+  intro flags m args r h
+  unfold opPointAdd at h ⊢
+  simp only [ex_bind_ok, ex_pure] at h
+  obtain ⟨⟨cost, total⟩, hl, h⟩ := h
+  cases h
+  exact (LoopOk.lift (pointAddLoop_ok hl) (Nat.le_add_right _ _)
+    (fun m' hm' => by simp only [hm', ex_ok_bind, ex_pure])
+    (fun m' hm' => by simp only [hm', ex_err_bind])).weaken (Nat.zero_le _)
+
+theorem opBlsG1Subtract_budget : TBudget opBlsG1Subtract := by
+  intro flags m args r h
+  unfold opBlsG1Subtract at h ⊢
+  simp only [ex_bind_ok, ex_pure] at h
+  obtain ⟨_, hc, ⟨cost, total⟩, hl, h⟩ := h
+  cases h
+  exact (LoopOk.lift (g1SubtractLoop_ok hl) (Nat.le_add_right _ _)
+    (fun m' hm' => by simp only [hm', ex_ok_bind, ex_pure])
+    (fun m' hm' => by simp only [hm', ex_err_bind])).checkB (Nat.zero_le _)
+
+theorem opBlsG2Add_budget : TBudget opBlsG2Add := by
+  intro flags m args r h
+  unfold opBlsG2Add at h ⊢
+  simp only [ex_bind_ok, ex_pure] at h
+  obtain ⟨_, hc, ⟨cost, total⟩, hl, h⟩ := h
+  cases h
+  exact (LoopOk.lift (g2AddLoop_ok hl) (Nat.le_add_right _ _)
+    (fun m' hm' => by simp only [hm', ex_ok_bind, ex_pure])
+    (fun m' hm' => by simp only [hm', ex_err_bind])).checkB (Nat.zero_le _)
+
+theorem opBlsG2Subtract_budget : TBudget opBlsG2Subtract := by
+  intro flags m args r h
+  unfold opBlsG2Subtract at h ⊢
+  simp only [ex_bind_ok, ex_pure] at h
+  obtain ⟨_, hc, ⟨cost, total⟩, hl, h⟩ := h
+  cases h
+  exact (LoopOk.lift (g2SubtractLoop_ok hl) (Nat.le_add_right _ _)
+    (fun m' hm' => by simp only [hm', ex_ok_bind, ex_pure])
+    (fun m' hm' => by simp only [hm', ex_err_bind])).checkB (Nat.zero_le _)
+
+theorem opPubkeyForExp_budget : TBudget opPubkeyForExp := by
+  intro flags m args r h
+  rcases getArgs1_cases args "pubkey_for_exp" with ⟨a, t, rfl, hg⟩ | ⟨s, hg⟩
+  · unfold opPubkeyForExp at h ⊢
+    simp only [hg, ex_ok_bind] at h ⊢
+    walk_ok h
+    budget_close
+  · unfold opPubkeyForExp at h; simp only [hg, ex_err_bind] at h; cases h
+
+theorem opBlsG1Multiply_budget : TBudget opBlsG1Multiply := by
+  intro flags m args r h
+  rcases getArgs2_cases args "g1_multiply" with ⟨a, b, t, rfl, hg⟩ | ⟨s, hg⟩
+  · unfold opBlsG1Multiply at h ⊢
+    cases hnm : newCostModel flags <;>
+    · simp only [hg, hnm, ex_ok_bind, Bool.false_eq_true, ↓reduceIte] at h ⊢
+      walk_ok h
+      budget_close
+  · unfold opBlsG1Multiply at h; simp only [hg, ex_err_bind] at h; cases h
+
+theorem opBlsG2Multiply_budget : TBudget opBlsG2Multiply := by
+  intro flags m args r h
+  rcases getArgs2_cases args "g2_multiply" with ⟨a, b, t, rfl, hg⟩ | ⟨s, hg⟩
+  · unfold opBlsG2Multiply at h ⊢
+    cases hnm : newCostModel flags <;>
+    · simp only [hg, hnm, ex_ok_bind, Bool.false_eq_true, ↓reduceIte] at h ⊢
+      walk_ok h
+      budget_close
+  · unfold opBlsG2Multiply at h; simp only [hg, ex_err_bind] at h; cases h
+
+set_option maxRecDepth 8000 in
+theorem opSecp256r1Verify_budget : TBudget opSecp256r1Verify := by
+  intro flags m args r h
+  rcases getArgs3_cases args "secp256r1_verify" with ⟨a, b, c, t, rfl, hg⟩ | ⟨s, hg⟩
+  · unfold opSecp256r1Verify at h ⊢
+    simp only [hg, ex_ok_bind] at h ⊢
+    walk_ok h
+    budget_close
+  · unfold opSecp256r1Verify at h; simp only [hg, ex_err_bind, ex_bind_ok] at h
+    obtain ⟨_, _, h⟩ := h; cases h
+
+set_option maxRecDepth 8000 in
+theorem opSecp256k1Verify_budget : TBudget opSecp256k1Verify := by
+  intro flags m args r h
+  rcases getArgs3_cases args "secp256k1_verify" with ⟨a, b, c, t, rfl, hg⟩ | ⟨s, hg⟩
+  · unfold opSecp256k1Verify at h ⊢
+    simp only [hg, ex_ok_bind] at h ⊢
+    walk_ok h
+    budget_close
+  · unfold opSecp256k1Verify at h; simp only [hg, ex_err_bind, ex_bind_ok] at h
+    obtain ⟨_, _, h⟩ := h; cases h
+
+/-- simp set deciding the argument-count test of `g1_map` / `g2_map` on a concrete list -/
+syntax "argc_simp" (Lean.Parser.Tactic.location)? : tactic
+macro_rules
+  | `(tactic| argc_simp $[$loc]?) => `(tactic|
+    simp only [List.length_cons, List.length_nil, Nat.zero_add, Nat.reduceAdd, Nat.reduceLeDiff, Nat.le_refl,
+      decide_true, decide_false, Bool.and_true, Bool.and_false, Bool.true_and, Bool.false_and, Bool.not_true,
+      Bool.not_false, Bool.false_eq_true, eq_self, ↓reduceIte, Bool.and_self] $[$loc]?)
+
+theorem opBlsMapToG1_budget (H : Bytes → Bytes → Bls.G1) : TBudget (opBlsMapToG1 H) := by
+  intro flags m args r h
+  unfold opBlsMapToG1 at h ⊢
+  rcases getVarargs2_cases args "g1_map" with ⟨t, rfl, hg⟩ | ⟨a, t, rfl, hg⟩ | ⟨a, b, t, rfl, hg⟩ | ⟨s, hg⟩
+  · simp only [hg, ex_ok_bind] at h; argc_simp at h; simp only [ex_throw, ex_err_bind, reduceCtorEq] at h
+  · cases hnm : newCostModel flags <;>
+    · simp only [hg, hnm, ex_ok_bind] at h ⊢
+      argc_simp at h ⊢
+      walk_ok h
+      budget_close
+  · cases hnm : newCostModel flags <;>
+    · simp only [hg, hnm, ex_ok_bind] at h ⊢
+      argc_simp at h ⊢
+      walk_ok h
+      budget_close
+  · simp only [hg, ex_err_bind, reduceCtorEq] at h
+
+theorem opBlsMapToG2_budget (H : Bytes → Bytes → Bls.G2) : TBudget (opBlsMapToG2 H) := by
+  intro flags m args r h
+  unfold opBlsMapToG2 at h ⊢
+  rcases getVarargs2_cases args "g2_map" with ⟨t, rfl, hg⟩ | ⟨a, t, rfl, hg⟩ | ⟨a, b, t, rfl, hg⟩ | ⟨s, hg⟩
+  · simp only [hg, ex_ok_bind] at h; argc_simp at h; simp only [ex_throw, ex_err_bind, reduceCtorEq] at h
+  · cases hnm : newCostModel flags <;>
+    · simp only [hg, hnm, ex_ok_bind] at h ⊢
+      argc_simp at h ⊢
+      walk_ok h
+      budget_close
+  · cases hnm : newCostModel flags <;>
+    · simp only [hg, hnm, ex_ok_bind] at h ⊢
+      argc_simp at h ⊢
+      walk_ok h
+      budget_close
+  · simp only [hg, ex_err_bind, reduceCtorEq] at h
+
+theorem opBlsPairingIdentity_budget (A : List (Bls.G1 × Bls.G2) → Bool) : TBudget (opBlsPairingIdentity A) := by
+  intro flags m args r h
+  unfold opBlsPairingIdentity at h ⊢
+  cases hnm : newCostModel flags <;>
+  · simp only [hnm, Bool.false_eq_true, ↓reduceIte, ex_bind_ok] at h ⊢
+    obtain ⟨_, hc, ⟨cost, items⟩, hl, h⟩ := h
+    simp only at h
+    split at h
+    · simp only [ex_throw, reduceCtorEq] at h
+    · rename_i hA
+      simp only [ex_pure, Except.ok.injEq] at h
+      subst h
+      exact (LoopOk.lift (pairingLoop_ok hl) (Nat.le_refl _)
+        (fun m' hm' => by simp only [hm', ex_ok_bind, hA, Bool.false_eq_true, ↓reduceIte, ex_pure])
+        (fun m' hm' => by simp only [hm', ex_err_bind])).checkB (Nat.zero_le _)
+
+theorem opBlsVerify_budget (A : Bls.G2 → List (Bls.G1 × Bytes) → Bool) : TBudget (opBlsVerify A) := by
+  intro flags m args r h
+  unfold opBlsVerify at h ⊢
+  cases hnm : newCostModel flags <;>
+  · simp only [hnm, Bool.false_eq_true, ↓reduceIte, ex_bind_ok] at h ⊢
+    obtain ⟨_, hc, a1, h1, sig, hsig, a2, h2, ⟨cost, items⟩, hl, h⟩ := h
+    simp only at h
+    split at h
+    · simp only [ex_throw, reduceCtorEq] at h
+    · rename_i hA
+      simp only [ex_pure, Except.ok.injEq] at h
+      subst h
+      simp only [h1, hsig, h2, ex_ok_bind]
+      exact (LoopOk.lift (verifyLoop_ok hl) (Nat.le_refl _)
+        (fun m' hm' => by simp only [hm', ex_ok_bind, hA, Bool.false_eq_true, ↓reduceIte, ex_pure])
+        (fun m' hm' => by simp only [hm', ex_err_bind])).checkB (Nat.zero_le _)
+
+/-- **every tree-level operator of the dispatch table has the budget shape** (any primitives) -/
+theorem opByNameWith_budget (P : Primitives) {name : String} {g : Crypto.OpFn}
+    (h : opByNameWith P name = some g) : TBudget g := by
+  unfold opByNameWith at h
+  split at h <;> first
+    | (cases h; done)
+    | (cases h; first
+        | exact opSha256_budget | exact opKeccak256_budget | exact opCoinid_budget | exact opPointAdd_budget
+        | exact opPubkeyForExp_budget | exact opBlsG1Subtract_budget | exact opBlsG1Multiply_budget
+        | exact opBlsG1Negate_budget | exact opBlsG2Add_budget | exact opBlsG2Subtract_budget
+        | exact opBlsG2Multiply_budget | exact opBlsG2Negate_budget | exact opBlsMapToG1_budget _
+        | exact opBlsMapToG2_budget _ | exact opBlsPairingIdentity_budget _ | exact opBlsVerify_budget _
+        | exact opSecp256k1Verify_budget | exact opSecp256r1Verify_budget)
+
+end Clvm.Crypto.Ops
